@@ -128,40 +128,40 @@ package keystore
 //@ func (*KeystoreManagerForPoC).useKeystore
 //@   requires tx-entry: !in_tx
 //@ func (*KeystoreManagerForPoC).NewKeystore
-//@   requires tx-entry: !in_tx && !write_failed
+//@   requires tx-entry: !in_tx && !write_failed && !commit_done
 //@   ensures tx-single: tx_count <= old(tx_count) + 1 && !in_tx
 //@ func (*KeystoreManagerForPoC).ImportKeystore
-//@   requires tx-entry: !in_tx && !write_failed
+//@   requires tx-entry: !in_tx && !write_failed && !commit_done
 //@   ensures tx-single: tx_count <= old(tx_count) + 1 && !in_tx
 //@ func (*KeystoreManagerForPoC).ExportKeystore
-//@   requires tx-entry: !in_tx && !write_failed
+//@   requires tx-entry: !in_tx && !write_failed && !commit_done
 //@   ensures tx-single: tx_count <= old(tx_count) + 1 && !in_tx
 //@ func (*KeystoreManagerForPoC).DeleteKeystore
-//@   requires tx-entry: !in_tx && !write_failed
+//@   requires tx-entry: !in_tx && !write_failed && !commit_done
 //@   ensures tx-single: tx_count <= old(tx_count) + 1 && !in_tx
 //@ func (*KeystoreManagerForPoC).Unlock
-//@   requires tx-entry: !in_tx && !write_failed
+//@   requires tx-entry: !in_tx && !write_failed && !commit_done
 //@   ensures tx-single: tx_count <= old(tx_count) + 1 && !in_tx
 //@ func (*KeystoreManagerForPoC).Lock
-//@   requires tx-entry: !in_tx && !write_failed
+//@   requires tx-entry: !in_tx && !write_failed && !commit_done
 //@   ensures tx-single: tx_count <= old(tx_count) + 1 && !in_tx
 //@ func (*KeystoreManagerForPoC).NextAddresses
-//@   requires tx-entry: !in_tx && !write_failed
+//@   requires tx-entry: !in_tx && !write_failed && !commit_done
 //@   ensures tx-single: tx_count <= old(tx_count) + 1 && !in_tx
 //@ func (*KeystoreManagerForPoC).GenerateNewPublicKey
-//@   requires tx-entry: !in_tx && !write_failed
+//@   requires tx-entry: !in_tx && !write_failed && !commit_done
 //@   ensures tx-single: tx_count <= old(tx_count) + 1 && !in_tx
 //@ func (*KeystoreManagerForPoC).ChangeRemark
-//@   requires tx-entry: !in_tx && !write_failed
+//@   requires tx-entry: !in_tx && !write_failed && !commit_done
 //@   ensures tx-single: tx_count <= old(tx_count) + 1 && !in_tx
 //@ func (*KeystoreManagerForPoC).ChangePubPassphrase
-//@   requires tx-entry: !in_tx && !write_failed
+//@   requires tx-entry: !in_tx && !write_failed && !commit_done
 //@   ensures tx-single: tx_count <= old(tx_count) + 1 && !in_tx
 //@ func (*KeystoreManagerForPoC).ChangePrivPassphrase
-//@   requires tx-entry: !in_tx && !write_failed
+//@   requires tx-entry: !in_tx && !write_failed && !commit_done
 //@   ensures tx-single: tx_count <= old(tx_count) + 1 && !in_tx
 //@ func NewKeystoreManagerForPoC
-//@   requires tx-entry: !in_tx && !write_failed
+//@   requires tx-entry: !in_tx && !write_failed && !commit_done
 //@   ensures tx-single: tx_count <= old(tx_count) + 1 && !in_tx
 
 // ---- the key-encryption interface: its only implementation (cryptoKey over snacl.CryptoKey) touches nothing but
